@@ -19,7 +19,7 @@ func init() {
 		Level: "other",
 		Explanation: "Soundness of a definite TryEval answer rests on three gates that are visible in the code, and these are decided: (R-PROXYGATE) in TryEval's own code (its static-call closure) every dynamic Operator call other than the cond arm's is the one inside executeOperatorProxy, and that call executes only on the false edge of contains(params, DNE): an operator never sees an unavailable operand (otherwise `(= x 1)` with x unavailable would answer a definite false); the operator's result and error are returned unchanged; " +
 			"(R-SHORTCUT) executeOperatorProxy returns constant false only under isAndOpNode(n) && contains(params,false), constant true only under isOrOpNode(n) && contains(params,true), DNE only under contains(params,DNE); (R-CACHEDGATE) every VariableFetcher.Get in that closure executes only on the true edge of Cached on the same fetcher with the same (varKey,strKey) of one node, and the other edge returns (DNE, nil); " +
-			"(R-PAIR) the polarity tables agree: matchesShortCircuit (andOp: res==false, orOp: res==true, else res==DNE), calAndSetShortCircuitForRCO (and-parent: andOp, or-parent: orOp), calAndSetShortCircuit (and-parent: scIfFalse, or-parent: scIfTrue), and the flag bit groups are disjoint (R-BITS). (R-STEPRES / R-STEPARGS on TryEval) per arm the pushed value is exactly the node literal / fetchVariableValueProxy(ctx, curt)#0 / executeOperatorProxy(ctx, curt, operands)#0 applied in that arm; the operand vector is built exactly as in Eval (sibling agreement); fast-arm slot k is getNodeValueProxy(ctx, nodes[i+1+k])#0 and nothing else. NOT decided: the climbing loop (matchesShortCircuit/parentNode/stack reset), i.e. that a decided value is attributed to the right ancestor.",
+			"(R-PAIR) the polarity tables agree: matchesShortCircuit (andOp: res==false, orOp: res==true, else res==DNE), calAndSetShortCircuitForRCO (and-parent: andOp, or-parent: orOp), calAndSetShortCircuit (and-parent: scIfFalse, or-parent: scIfTrue), and the flag bit groups are disjoint (R-BITS). (R-STEPRES / R-STEPARGS on TryEval) per arm the pushed value is exactly the node literal / fetchVariableValueProxy(ctx, curt)#0 / executeOperatorProxy(ctx, curt, operands)#0 applied in that arm; the operand vector is built exactly as in Eval (sibling agreement); fast-arm slot k is getNodeValueProxy(ctx, nodes[i+1+k])#0 and nothing else. (R-CACHEDGET) for every fetcher of the package, Cached == true excludes every error condition of Get: a variable reported as available can be fetched. NOT decided: the climbing loop (matchesShortCircuit/parentNode/stack reset), i.e. that a decided value is attributed to the right ancestor.",
 		Run:       runC04,
 		Witnesses: c04Witnesses,
 	})
@@ -29,7 +29,7 @@ func init() {
 		Explanation: "Decides the ordering and 'DNE is not an error' clauses: (R-PROXYORDER) in executeOperatorProxy the two shortcut returns are reached under exactly their own two conditions (and-node with a false operand / or-node with a true operand) and nothing else — in particular not under 'no operand is DNE' — so an `and` with any available false operand is false wherever the unavailable operands sit; " +
 			"(R-DNE-NOT-ERR) the not-cached edge of the variable proxy returns the DNE marker with a nil error; (R-DNEBOOL) TryEvalBool maps res == DNE to ErrDNE before it asserts bool; (R-FASTPROXY) the fast-operator arm of TryEval obtains both operands through the value proxy (constant: the literal; variable: the cached-gated fetch) and applies the operator proxy; (R-PAIR/R-BITS) as in C04. " +
 			"(R-STEPRES / R-STEPARGS on TryEval) per arm the pushed value is exactly the node literal / fetchVariableValueProxy(ctx, curt)#0 / executeOperatorProxy(ctx, curt, operands)#0 applied in that arm; the operand vector is built exactly as in Eval (sibling agreement); fast-arm slot k is getNodeValueProxy(ctx, nodes[i+1+k])#0 and nothing else. " +
-			"NOT decided: that every Kleene-definite expression yields a definite answer (propagation through nested shapes, deciding operands after unavailable ones).",
+			"(R-CACHEDGET) for every fetcher of the package, Cached == true excludes every error condition of Get. NOT decided: that every Kleene-definite expression yields a definite answer (propagation through nested shapes, deciding operands after unavailable ones).",
 		Run:       runC05,
 		Witnesses: c05Witnesses,
 	})
@@ -524,6 +524,7 @@ func runC04(w *World, r *Report) {
 	ruleBits(w, r)
 	rulePairBool(w, r)
 	ruleStepArgs(w, r, ruleStepRes(w, r, "(*Expr).TryEval"))
+	ruleCachedGet(w, r)
 }
 
 // ---- C05 ----------------------------------------------------------------------
@@ -537,6 +538,7 @@ func runC05(w *World, r *Report) {
 	rulePair(w, r)
 	ruleBits(w, r)
 	ruleStepArgs(w, r, ruleStepRes(w, r, "(*Expr).TryEval"))
+	ruleCachedGet(w, r)
 }
 
 func ruleDneBool(w *World, r *Report) {
@@ -744,7 +746,7 @@ var c04Witnesses = append(stepWitnessesTry, []Witness{
 		{File: "engine.go", Old: "	switch {\n	case isAndOpNode(n) && contains(params, false):\n		return false, nil\n	case isOrOpNode(n) && contains(params, true):\n		return true, nil\n	case contains(params, DNE):\n		return DNE, nil\n	}\n	return n.operator(ctx, params)", New: "	if isAndOpNode(n) {\n		if contains(params, false) {\n			return false, nil\n		}\n	} else if isOrOpNode(n) && contains(params, true) {\n		return true, nil\n	}\n	if !contains(params, DNE) {\n		return n.operator(ctx, params)\n	}\n	return DNE, nil"}}},
 }...)
 
-var c05Witnesses = []Witness{
+var c05Witnesses = append(wave4WitnessesC05, []Witness{
 	{Name: "dne-poisons-before-shortcuts", Rule: "R-PROXYORDER", Edits: []Edit{
 		{File: "engine.go", Old: "	switch {\n	case isAndOpNode(n) && contains(params, false):\n		return false, nil\n	case isOrOpNode(n) && contains(params, true):\n		return true, nil\n	case contains(params, DNE):\n		return DNE, nil\n	}", New: "	switch {\n	case contains(params, DNE):\n		return DNE, nil\n	case isAndOpNode(n) && contains(params, false):\n		return false, nil\n	case isOrOpNode(n) && contains(params, true):\n		return true, nil\n	}"}}},
 	{Name: "and-shortcut-only-without-dne", Rule: "R-PROXYORDER", Edits: []Edit{
@@ -759,4 +761,4 @@ var c05Witnesses = []Witness{
 		{File: "engine.go", Old: "	if n.flag&nodeTypeMask == constant {\n		res = n.value\n	} else {", New: "	if n.flag&nodeTypeMask != variable {\n		res = n.value\n	} else {"}}},
 	{Name: "benign-tryevalbool-switch", Benign: true, Edits: []Edit{
 		{File: "engine.go", Old: "	if res == DNE {\n		return false, ErrDNE\n	}\n\n	b, ok := res.(bool)\n	if !ok {\n		return false, errors.New(\"invalid result type error\")\n	}\n	return b, nil\n}", New: "	if res != DNE {\n		if b, ok := res.(bool); ok {\n			return b, nil\n		}\n		return false, errors.New(\"invalid result type error\")\n	}\n	return false, ErrDNE\n}"}}},
-}
+}...)
